@@ -66,3 +66,12 @@ OBJECT_FIELDS = {"scope_state": "ScopeState"}
 def class_ids(name):
     names = SUBCLASSES.get(name, [name])
     return [CLASSES[n] for n in names if n in CLASSES]
+
+
+# which classes carry a field (needed for getattr(obj, name, default) and hasattr)
+FIELD_OWNERS = {
+    "binding": ["_AttrpathEntry"],
+    "scope": EXPRESSIONS, "scope_state": EXPRESSIONS, "before": EXPRESSIONS, "after": EXPRESSIONS,
+    "values": ["AttributeSet"], "from_expression": ["Inherit"], "value": ["Binding", "Parenthesis", "LetExpression", "Primitive",
+                                                                        "StringPrimitive", "IntegerPrimitive", "BooleanPrimitive", "NullPrimitive", "NixList"],
+}
